@@ -1,83 +1,183 @@
-"""C18 — gateway: newest progress, right job, no id reuse.
+"""C18 — gateway: newest progress, right job, no id reuse, keeps serving.
 
-Tie: the real JobRouter + handle_fe + handle_controller (through the real parse_request /
-serialize_response / report.serialize) against Model/Gateway.lean, op by op.
-Oracle: written from the property text (greatest timestamp wins, results as uploaded, fresh ids,
-unknown => error and keeps serving).
+Tie: the real `cascade.gateway.server.serve` loop (with the real handle_fe / handle_controller / JobRouter /
+_spawn_local, the real parse_request / serialize_response / report.serialize) is run once per history over a
+scripted poller against Model/Gateway.lean (`poll`/`serve`), poll round by poll round.
+Oracle: written from the property text (greatest timestamp wins, results as uploaded, fresh ids, unknown =>
+error response, the gateway keeps serving); it sees only what went over the sockets, the launch commands and the
+log, never the router's own tables.
 """
 import base64
 import json
+import logging
+import pickle
+import types
 
 import orjson
 
 PROPERTY = "C18"
-LEVEL_TEXT = ("Lean theorems over Model/Gateway.lean (JobRouter + handle_fe/handle_controller dispatch): for every history the shown "
-              "progress is the first-received among the read reports of greatest timestamp, shutdown keeps it, results per (job,dataset) "
-              "are the last upload, ids are fresh and persistent, unknown job/dataset => error response with unchanged state. Unbounded in "
-              "history length and number of jobs; tied to the real router/handlers by an op-by-op correspondence check.")
-LEVEL_NOTE = ("modelled, not verified: router.py JobRouter, server.py handle_fe/handle_controller; zmq sockets/poller, subprocess spawn and uuid4 "
-              "are replaced by fakes; pickle/orjson/pydantic are exercised by the real parse/serialize functions but trusted")
-TECHNIQUE = "Lean 4 proof by induction over report histories (refinement to 'newest timestamp wins') + differential correspondence with the real JobRouter"
+LEVEL_TEXT = ("Lean theorems over Model/Gateway.lean (JobRouter, handle_fe, handle_controller and the serve poll loop): for every history of "
+              "handled events the shown progress is the first-received among the progress reports naming the job with the greatest timestamp "
+              "(shutdown notices never erase it), the result for (job,dataset) is the last accepted upload for exactly that pair or an error, "
+              "ids handed out are pairwise distinct, the tracked jobs are exactly the ids handed out, a query naming an id that was never handed "
+              "out is answered with an error and leaves the state unchanged; at the serve level every history of poll rounds without a malformed "
+              "frontend message keeps the loop alive, every event is answered in kind, the state is the flat run over the handled events, a "
+              "closed job socket is never read again. Unbounded in history length and number of jobs; tied to the real serve loop by a "
+              "round-by-round correspondence check. Carried by the tie only: that a Python exception inside a try block becomes the error "
+              "response / log line the model assumes.")
+LEVEL_NOTE = ("modelled, not verified: router.py JobRouter/spawn_job, server.py handle_fe/handle_controller/serve; zmq sockets/poller, "
+              "subprocess.Popen and uuid4 are replaced by fakes (Popen validates argv like the real one); pickle/orjson/pydantic are exercised "
+              "by the real parse/serialize functions but trusted; slurm launches are not exercised")
+TECHNIQUE = ("Lean 4 proof by induction over event histories and poll rounds (refinement to 'newest timestamp wins' / 'last upload wins' / "
+             "batch loop to flat run) + differential correspondence with the real serve loop")
 LEAN_PROPS = ["EkwVerif.Props.C18"]
 LEAN_DRIVERS = ["C18"]
-RULE = ("random histories over 1-4 jobs: spawn (uuid candidates incl. collisions), controller reports "
-        "(progress / result upload / shutdown; timestamps 0..15 with reordering, ties and duplicates), frontend "
-        "progress and result queries incl. unknown jobs/datasets. non-trivial = history with >=2 reports for one "
-        "job arriving out of timestamp order or >=1 result upload; distinct by content hash")
+RULE = ("random histories of poll rounds (1-3 ready sockets each) over 1-5 jobs: submit (uuid candidates incl. collisions; launch failures: "
+        "bad spec / OSError from Popen), controller reports (progress / result upload / shutdown; timestamps 0..15 with reordering, ties and "
+        "duplicates, some negative or >= 2^63; payloads of 0..70000 bytes; reports naming another, an unknown or a not-yet-spawned job; reports "
+        "arriving on another job's socket or on a closed socket; non-report bytes), frontend progress/result queries incl. unknown "
+        "jobs/datasets, shutdown requests, malformed frontend bytes. non-trivial = history with >=2 progress reports for one job out of "
+        "timestamp order, a result upload, a report on a foreign socket or a report naming an unknown job; distinct by content hash")
 ASSUMPTIONS = [
-    "zmq sockets and the poller are replaced by in-process fakes; `serve` reads only registered sockets",
-    "_spawn_subprocess is stubbed; uuid4 is replaced by a scripted candidate stream",
-    "timestamps are non-negative integers (time.monotonic_ns)",
+    "zmq sockets and the poller are replaced by in-process fakes: the poller reports a socket only while it is registered, one message per socket and round",
+    "subprocess.Popen is replaced by a fake that validates argv as CPython does and records it; uuid4 is replaced by a scripted candidate stream; slurm launches are not exercised",
+    "frontend messages are instances of the API request classes: bytes that parse_request rejects end the serve loop (modelled as `malformed`, compared by the tie, outside the oracle)",
+    "oracle domain: timestamps of progress reports are non-negative (time.monotonic_ns); shutdown notices carry no uploads (Reporter.shutdown)",
 ]
 
+LEGAL_OUT = ("spawned", "progress", "result", "bye", "reported", "died")
 
-# ----------------------------------------------------------------------------- real side
+
+# ----------------------------------------------------------------------------- fakes
+
+class _EndOfScript(BaseException):
+    pass
+
 
 class FakeSocket:
-    def __init__(self):
+    def __init__(self, run, kind, n):
+        self.run = run
+        self.kind = kind
+        self.n = n
         self.inbox = []
-        self.sent = []
+        self.addr = None
+        self.closed = False
+
+    def bind(self, url):
+        self.addr = url
 
     def bind_to_random_port(self, addr):
-        return 4242
+        port = 20000 + self.n
+        self.addr = f"{addr}:{port}"
+        self.run.bound_now.append(self)
+        return port
 
     def recv(self):
-        return self.inbox.pop(0)
+        tag, msg = self.inbox.pop(0)
+        self.run.current = tag
+        self.run.consumed.add(tag)
+        return msg
 
     def send(self, b):
-        self.sent.append(b)
+        self.run.sent.setdefault(self.run.current, []).append(b)
+
+    def close(self, *a, **k):
+        self.closed = True
+
+    def set(self, *a, **k):
+        pass
+
+    setsockopt = set
 
 
 class FakeCtx:
+    def __init__(self, run):
+        self.run = run
+
     def socket(self, kind):
-        return FakeSocket()
+        s = FakeSocket(self.run, kind, len(self.run.sockets))
+        self.run.sockets.append(s)
+        return s
 
 
 class FakePoller:
-    def __init__(self):
+    """zmq.Poller semantics that matter: only registered sockets are ever reported; unregister of an absent socket raises KeyError."""
+
+    def __init__(self, run):
+        self.run = run
         self.registered = []
 
     def register(self, s, flags=None):
-        self.registered.append(s)
+        if s not in self.registered:
+            self.registered.append(s)
+        self.run.registered_by.setdefault(self.run.current, []).append(s)
 
     def unregister(self, s):
-        self.registered.remove(s)   # ValueError if absent, like zmq's KeyError
+        if s not in self.registered:
+            raise KeyError(s)
+        self.registered.remove(s)
+
+    def poll(self, timeout=None):
+        return self.run.next_poll(self)
 
 
-class Real:
-    def __init__(self):
-        import cascade.gateway.router as router
-        import cascade.gateway.server as server
-        self.router_mod = router
-        self.server = server
-        router.get_context = lambda: FakeCtx()
-        router._spawn_subprocess = lambda spec, addr, jid: None
-        self.poller = FakePoller()
-        self.jobs = router.JobRouter(self.poller)
-        self.fe = FakeSocket()
+class FakePopenError(OSError):
+    pass
+
+
+class _LogTap(logging.Handler):
+    def __init__(self, run):
+        super().__init__(level=logging.WARNING)
+        self.run = run
+
+    def emit(self, record):
+        if record.levelno >= logging.ERROR:
+            self.run.errors.setdefault(self.run.current, []).append(record.getMessage()[:120])
+
+
+def _ds(d):
+    from cascade.low.core import DatasetId
+    t, o = d.split("|")
+    return DatasetId(task=t, output=o)
+
+
+MALFORMED = {
+    "bytes": b"\xff\xfe not json",
+    "clazz": orjson.dumps({"clazz": "NopeRequest"}),
+    "response": orjson.dumps({"clazz": "ShutdownResponse", "error": None}),
+    "fields": orjson.dumps({"clazz": "JobProgressRequest"}),
+}
+
+
+class ServeRun:
+    """One run of the real `serve` over a scripted sequence of poll rounds."""
+
+    def __init__(self, batches):
+        self.batches = batches
+        self.sockets = []
+        self.current = None
+        self.consumed = set()
+        self.sent = {}
+        self.errors = {}
+        self.bound_now = []
+        self.launches = []          # (tag, argv) of successful Popen calls
+        self.launch_tries = []      # (tag, argv or None) of every Popen call
+        self.addr_of = {}           # job id -> address its controller was told to report to
         self.cands = []
+        self.round = -1
+        self.ready_tags = []        # per round: tags delivered to a ready socket
+        self.unready_tags = set()
+        self.poller = None
+        self.death = None
+        self.phase = "running"
+        self.bound_by = {}          # tag -> sockets bound while that event was handled
+        self.registered_by = {}     # tag -> sockets registered with the poller while that event was handled
+        self.fail_now = None
 
+    # -- fakes wired into the real modules
     def _uuid(self):
+        run = self
+
         class U:
             def __init__(s, v):
                 s.v = v
@@ -85,267 +185,742 @@ class Real:
 
             def __str__(s):
                 return s.v
-        if not self.cands:
+        if not run.cands:
             raise RuntimeError("uuid stream exhausted")
-        return U(self.cands.pop(0))
+        return U(run.cands.pop(0))
 
-    def op(self, o):
+    def _popen(self, argv, *a, **k):
+        tag = self.current
+        if self.fail_now == "oserror":
+            self.launch_tries.append((tag, None))
+            raise FakePopenError(2, "No such file or directory: 'python'")
+        # CPython's subprocess: every element of args must be str, bytes or os.PathLike
+        import os
+        for x in argv:
+            if not isinstance(x, (str, bytes, os.PathLike)):
+                self.launch_tries.append((tag, None))
+                raise TypeError(f"expected str, bytes or os.PathLike object, not {type(x).__name__}")
+        self.launch_tries.append((tag, list(argv)))
+        self.launches.append((tag, list(argv)))
+        argv = [x if isinstance(x, str) else os.fsdecode(x) for x in argv]
+        if "--report_address" in argv:
+            val = argv[argv.index("--report_address") + 1]
+            addr, _, jid = val.partition(",")
+            self.addr_of[jid] = addr
+        return types.SimpleNamespace(pid=4242, poll=lambda: None, wait=lambda *a, **k: 0)
+
+    def _sock_at(self, addr):
+        for s in self.sockets:
+            if s.addr == addr and s.kind != self.fe_kind:
+                return s
+        return None
+
+    # -- the scripted poller
+    def _encode(self, ev):
         import cascade.gateway.api as api
         from cascade.controller.report import ControllerReport, serialize
-        kind = o["op"]
-        if kind == "spawn":
-            self.cands = list(o["candidates"])
-            self.router_mod.uuid.uuid4 = self._uuid
-            spec = api.JobSpec(benchmark_name="x", envvars={}, job_instance=None, workers_per_host=1, hosts=1, use_slurm=False)
-            req = api.SubmitJobRequest(job=spec)
-            rsp = self._fe(req)
-            return {"spawned": rsp["job_id"]}
-        if kind == "report":
-            job = self.jobs.jobs.get(o["job"])
-            if job is None:
-                return {"reported": "keyError"}
-            if job.socket not in self.poller.registered:
-                return {"reported": "notRead"}
-            rep = ControllerReport(o["job"], o["status"], o["ts"], [(self._ds(d), bytes.fromhex(b)) for d, b in o["results"]])
-            job.socket.inbox.append(serialize(rep))
-            self.server.handle_controller(job.socket, self.jobs)
-            return {"reported": "ok"}
-        if kind == "progress":
-            rsp = self._fe(api.JobProgressRequest(job_ids=o["ids"]))
+        k = ev["k"]
+        if k == "submit":
+            fail = ev.get("fail")
+            from cascade.low.core import JobInstance
+            spec = api.JobSpec(benchmark_name=None if fail == "neither" else "x", envvars={},
+                               job_instance=JobInstance(tasks={}, edges=[]) if fail == "both" else None,
+                               workers_per_host=1, hosts=1, use_slurm=False)
+            return self._req(api.SubmitJobRequest(job=spec))
+        if k == "progress":
+            return self._req(api.JobProgressRequest(job_ids=ev["ids"]))
+        if k == "result":
+            return self._req(api.ResultRetrievalRequest(job_id=ev["job"], dataset_id=_ds(ev["ds"])))
+        if k == "shutdown":
+            return self._req(api.ShutdownRequest())
+        if k == "malformed":
+            return MALFORMED[ev["how"]]
+        if k == "report":
+            rep = ControllerReport(ev["job"], ev["status"], ev["ts"], [(_ds(d), bytes.fromhex(b)) for d, b in ev["results"]])
+            return serialize(rep)
+        if k == "garbage":
+            return b"\x00garbage" if ev["how"] == "unpicklable" else pickle.dumps({"not": "a report"})
+        raise ValueError(k)
+
+    @staticmethod
+    def _req(req):
+        d = req.model_dump(mode="json")
+        d["clazz"] = type(req).__name__
+        return orjson.dumps(d)
+
+    def next_poll(self, poller):
+        self._end_event()
+        self.round += 1
+        if self.round >= len(self.batches):
+            raise _EndOfScript()
+        ready = []
+        tags = []
+        for i, ev in enumerate(self.batches[self.round]):
+            tag = (self.round, i)
+            if ev["k"] in ("report", "garbage"):
+                addr = self.addr_of.get(ev["owner"])
+                sock = self._sock_at(addr) if addr is not None else None
+            else:
+                sock = self.fe
+            if sock is None or sock not in poller.registered:
+                self.unready_tags.add(tag)
+                continue
+            sock.inbox.append((tag, self._encode(ev)))
+            ready.append((sock, 1))
+            tags.append(tag)
+        self.ready_tags.append(tags)
+        return ready
+
+    def _end_event(self):
+        pass
+
+    def _on_recv_submit(self, tag):
+        r, i = tag
+        ev = self.batches[r][i]
+        self.bound_now = []
+        self.bound_by[tag] = self.bound_now
+        if ev["k"] == "submit":
+            self.cands = list(ev["candidates"])
+            self.fail_now = ev.get("fail")
+        else:
+            self.fail_now = None
+
+    # -- run
+    def run(self):
+        import cascade.gateway.router as router
+        import cascade.gateway.server as server
+        import zmq
+        run = self
+        self.fe_kind = zmq.REP
+
+        class ZmqShim:
+            def __getattr__(s, name):
+                return getattr(zmq, name)
+
+            def Poller(s):
+                run.poller = FakePoller(run)
+                return run.poller
+        ctx = FakeCtx(self)
+        saved = {(m, n): getattr(m, n) for m, n in ((server, "get_context"), (server, "zmq"), (router, "get_context"),
+                                                    (router, "subprocess"), (router, "uuid"), (router, "getfqdn"),
+                                                    (router, "local_job_port"))}
+        server.get_context = lambda: ctx
+        server.zmq = ZmqShim()
+        router.get_context = lambda: ctx
+        router.subprocess = types.SimpleNamespace(Popen=self._popen, run=lambda *a, **k: (_ for _ in ()).throw(FakePopenError(1, "no slurm here")))
+        router.uuid = types.SimpleNamespace(uuid4=self._uuid)
+        router.getfqdn = lambda: "gw"
+        # recv hook: set up the per-event scripted inputs when the event is taken from the socket
+        orig_recv = FakeSocket.recv
+
+        def recv(sock):
+            msg = orig_recv(sock)
+            run._on_recv_submit(run.current)
+            return msg
+        FakeSocket.recv = recv
+        lg = logging.getLogger("cascade")
+        tap = _LogTap(self)
+        old = (lg.propagate, lg.level, list(lg.handlers))
+        lg.handlers = [tap]
+        lg.propagate = False
+        lg.setLevel(logging.WARNING)
+        was_disabled = logging.root.manager.disable
+        logging.disable(logging.NOTSET)      # the check's cli silences logging globally; the log is an output here
+        try:
+            try:
+                server.serve("tcp://gw:1")
+                self.phase = "stopped"
+            except _EndOfScript:
+                self.phase = "running"
+            except Exception as e:     # the gateway process would end here
+                self.phase = "dead"
+                self.death = (self.current, type(e).__name__, str(e)[:100])
+        finally:
+            FakeSocket.recv = orig_recv
+            lg.propagate, lg.handlers = old[0], old[2]
+            logging.disable(was_disabled)
+            lg.setLevel(old[1])
+            for (m, n), v in saved.items():
+                setattr(m, n, v)
+        return self._outs()
+
+    @property
+    def fe(self):
+        return self.sockets[0] if self.sockets else None
+
+    def _outs(self):
+        outs = []
+        for r, batch in enumerate(self.batches):
+            row = []
+            for i, ev in enumerate(batch):
+                tag = (r, i)
+                if r > self.round or r >= len(self.ready_tags):
+                    row.append("notServed")          # the loop had ended before this poll round
+                elif tag in self.unready_tags:
+                    row.append("notRead")
+                elif tag not in self.consumed:
+                    row.append("lost" if self.phase == "dead" else "ignored")
+                elif self.death is not None and self.death[0] == tag:
+                    row.append({"died": self.death[1], "msg": self.death[2]})
+                else:
+                    row.append(self._out_of(tag, ev))
+            outs.append(row)
+        return outs
+
+    def _out_of(self, tag, ev):
+        k = ev["k"]
+        if k in ("report", "garbage"):
+            return {"reported": "error" if self.errors.get(tag) else "ok"}
+        sent = self.sent.get(tag, [])
+        if len(sent) != 1:
+            return {"responses": len(sent)}
+        rsp = orjson.loads(sent[0])
+        want = {"submit": "SubmitJobResponse", "progress": "JobProgressResponse", "result": "ResultRetrievalResponse",
+                "shutdown": "ShutdownResponse"}.get(k)
+        if rsp.get("clazz") != want:
+            return {"badclazz": rsp.get("clazz")}
+        if k == "submit":
+            o = {"spawned": rsp["job_id"]}
+            if rsp["job_id"] is None:
+                o["error"] = (rsp["error"] or "")[:80]
+            elif rsp["error"] is not None:
+                o["error_and_id"] = True
+            return o
+        if k == "progress":
             if rsp["error"] is not None:
                 return {"progress": None}
-            return {"progress": [[k, v] for k, v in rsp["progresses"].items()]}
-        if kind == "result":
-            rsp = self._fe(api.ResultRetrievalRequest(job_id=o["job"], dataset_id=self._ds(o["ds"])))
+            return {"progress": [[a, b] for a, b in rsp["progresses"].items()]}
+        if k == "result":
             if rsp["error"] is not None:
                 return {"result": None}
             return {"result": base64.b64decode(rsp["result"]).hex()}
-        raise ValueError(kind)
+        if k == "shutdown":
+            return {"bye": rsp["error"] is None}
+        return {"unexpected": k}
 
-    @staticmethod
-    def _ds(d):
-        from cascade.low.core import DatasetId
-        t, o = d.split("|")
-        return DatasetId(task=t, output=o)
 
-    def _fe(self, req):
-        d = req.model_dump(mode="json")
-        d["clazz"] = type(req).__name__
-        self.fe.inbox.append(orjson.dumps(d))
-        self.server.handle_fe(self.fe, self.jobs)
-        return orjson.loads(self.fe.sent.pop())
+def run_real(batches):
+    run = ServeRun(batches)
+    try:
+        outs = run.run()
+    except Exception as e:   # harness trouble is reported as a result, never a crash of the check
+        outs = [[{"harness": f"{type(e).__name__}: {e}"[:200]} for _ in b] for b in batches]
+    return outs, run
 
 
 # ----------------------------------------------------------------------------- generator
 
-def gen_history(rng, nops):
-    ops = []
-    ids = []
-    pool = ["j%d" % i for i in range(6)]
-    # dataset ids incl. dotted task/output names whose repr ("task.output") coincide: ("a.b","c") vs ("a","b.c")
-    dss = ["t%d|o%d" % (i, k) for i in range(2) for k in range(2)] + ["a.b|c", "a|b.c"]
-    ops.append({"op": "spawn", "candidates": [pool[0]]})
-    ids.append(pool[0])
-    for _ in range(nops):
-        r = rng.random()
-        if r < 0.12:
-            # candidates: maybe collide with existing ids first
-            c = [rng.choice(ids) for _ in range(rng.randint(0, 2))] + [rng.choice(pool)] + ["z%d" % len(ids)]
-            fresh = next(x for x in c if x not in ids)
-            ids.append(fresh)
-            ops.append({"op": "spawn", "candidates": c})
-        elif r < 0.62:
-            j = rng.choice(ids) if rng.random() < 0.95 else "nope"
-            k = rng.random()
-            if k < 0.6:
-                status = "%d.00" % rng.randint(0, 99)
-            elif k < 0.9:
-                status = None
-            else:
-                status = "Shutdown"
-            res = []
-            if status is None or rng.random() < 0.1:
-                res = [[rng.choice(dss), "%02x" % rng.randint(0, 255)] for _ in range(rng.randint(1, 2))]
-            rep = {"op": "report", "job": j, "status": status, "ts": rng.randint(0, 15), "results": res}
-            ops.append(rep)
-            if rng.random() < 0.15:
-                ops.append(dict(rep))  # duplicate delivery
-        elif r < 0.8:
-            k = rng.random()
-            if k < 0.4:
-                q = []
-            else:
-                q = [rng.choice(ids + ["nope"] if rng.random() < 0.2 else ids) for _ in range(rng.randint(1, 3))]
-            ops.append({"op": "progress", "ids": q})
+POOL = ["j%d" % i for i in range(6)]
+# dataset ids incl. dotted task/output names whose repr ("task.output") coincide: ("a.b","c") vs ("a","b.c")
+DSS = ["t%d|o%d" % (i, k) for i in range(2) for k in range(2)] + ["a.b|c", "a|b.c"]
+
+
+def _payload(rng, cnt):
+    r = rng.random()
+    if r < 0.10:
+        n = 0
+    elif r < 0.68:
+        n = 1
+    elif r < 0.88:
+        n = rng.randint(2, 8)
+    elif r < 0.996:
+        n = 300
+    else:
+        n = 70000
+    cnt("payload_bytes:%s" % (n if n in (0, 1, 300, 70000) else "2-8"))
+    if n <= 8:
+        return "".join("%02x" % rng.randint(0, 255) for _ in range(n))
+    seed = rng.randint(0, 255)
+    return "".join("%02x" % ((seed + 7 * i) % 256) for i in range(n))
+
+
+def _ts(rng, cnt):
+    r = rng.random()
+    if r < 0.90:
+        cnt("ts:0-15")
+        return rng.randint(0, 15)
+    if r < 0.95:
+        cnt("ts:negative")
+        return -rng.randint(1, 3)
+    cnt("ts:>=2^63")
+    return rng.choice([2 ** 63, 2 ** 63 + rng.randint(1, 3), 10 ** 30 + rng.randint(0, 2)])
+
+
+def gen_history(rng, nops, cnt=lambda k, n=1: None):
+    batches = [[{"k": "submit", "candidates": [POOL[0]], "fail": None}]]
+    ids = [POOL[0]]          # ids the generator believes are handed out (a guide for the distribution only)
+    made = 1
+    while made <= nops:
+        size = 1 if rng.random() < 0.75 else (2 if rng.random() < 0.72 else 3)
+        batch = []
+        socks = set()
+        for _ in range(size):
+            ev = _gen_event(rng, ids, made / max(1, nops), cnt)
+            sock = ev.get("owner", "fe") if ev["k"] in ("report", "garbage") else "fe"
+            if sock in socks:
+                continue            # a poller reports a socket once per round
+            socks.add(sock)
+            batch.append(ev)
+            made += 1
+            if ev["k"] == "report" and rng.random() < 0.15:
+                batches.append(batch)
+                batch = [dict(ev)]   # duplicate delivery, next round
+                cnt("duplicate_delivery")
+                made += 1
+                break
+        if batch:
+            batches.append(batch)
+    return batches
+
+
+def _gen_event(rng, ids, progress_frac, cnt):
+    r = rng.random()
+    if r < 0.12:
+        c = [rng.choice(ids) for _ in range(rng.randint(0, 2))] + [rng.choice(POOL)] + ["z%d" % len(ids)]
+        f = rng.random()
+        fail = None if f < 0.78 else ("oserror" if f < 0.90 else ("neither" if f < 0.95 else "both"))
+        if fail is None:
+            ids.append(next(x for x in c if x not in ids))
+        cnt("submit:" + (fail or "ok"))
+        return {"k": "submit", "candidates": c, "fail": fail}
+    if r < 0.62:
+        u = rng.random()
+        if u < 0.90:
+            j = rng.choice(ids)
+            cnt("report:names-known-job")
+        elif u < 0.95:
+            j = "nope"
+            cnt("report:names-unknown-job")
         else:
-            ops.append({"op": "result", "job": rng.choice(ids + ["nope"]) if rng.random() < 0.15 else rng.choice(ids), "ds": rng.choice(dss + ["t9|o9"])})
-    return ops
+            j = rng.choice(POOL)          # maybe not (yet) spawned
+            cnt("report:names-pool-id")
+        owner = j if (j in ids and rng.random() < 0.88) else rng.choice(ids)
+        if owner != j:
+            cnt("report:on-foreign-socket")
+        k = rng.random()
+        if k < 0.57:
+            status = "%d.00" % rng.randint(0, 99)
+        elif k < 0.60:
+            status = rng.choice(["shutdown", "Shutdown ", "", "100.00", "Shutdowné"])
+            cnt("report:odd-progress-string")
+        elif k < 0.88:
+            status = None
+        else:
+            status = "Shutdown"
+        res = []
+        if (status is None and rng.random() < 0.93) or (status is not None and rng.random() < 0.1):
+            res = [[rng.choice(DSS), _payload(rng, cnt)] for _ in range(rng.randint(1, 2))]
+        if status is None and not res:
+            cnt("report:empty")
+        return {"k": "report", "owner": owner, "job": j, "status": status, "ts": _ts(rng, cnt), "results": res}
+    if r < 0.78:
+        if rng.random() < 0.4:
+            q = []
+        else:
+            q = [rng.choice(ids + ["nope"] if rng.random() < 0.2 else ids) for _ in range(rng.randint(1, 3))]
+        return {"k": "progress", "ids": q}
+    if r < 0.96:
+        return {"k": "result", "job": rng.choice(ids + ["nope"]) if rng.random() < 0.15 else rng.choice(ids), "ds": rng.choice(DSS + ["t9|o9"])}
+    if r < 0.975:
+        return {"k": "garbage", "owner": rng.choice(ids), "how": rng.choice(["unpicklable", "wrong-type"])}
+    # loop-ending events: rare, and mostly late in the history
+    if rng.random() < 0.3 + 0.7 * progress_frac:
+        if rng.random() < 0.6:
+            return {"k": "shutdown"}
+        return {"k": "malformed", "how": rng.choice(sorted(MALFORMED))}
+    return {"k": "progress", "ids": []}
 
 
 # ----------------------------------------------------------------------------- oracle
 
+def _trigger(ev, orc):
+    k = ev["k"]
+    if k == "report":
+        if ev["job"] not in orc.ids:
+            return "report-naming-unknown-job"
+        if ev["status"] == "Shutdown" and ev["job"] in orc.shut:
+            return "second-shutdown-notice"
+        if ev["owner"] != ev["job"]:
+            return "report-on-foreign-socket"
+        return "report"
+    if k == "progress":
+        return "progress-query-unknown-job" if any(j not in orc.ids for j in ev["ids"]) else "progress-query"
+    if k == "result":
+        return "result-query-unknown-job" if ev["job"] not in orc.ids else "result-query"
+    return k
+
+
 class Oracle:
-    """Reference from the property text only."""
+    """Reference from the property text only. Sees events, responses, consumption of messages, launch commands."""
 
     def __init__(self):
-        self.reports = {}   # job -> list of (ts, progress) read
-        self.results = {}   # (job, ds) -> bytes
-        self.live = {}      # job -> still reporting
-        self.ids = []
+        self.ids = []          # ids handed out by submit responses, in order
+        self.prog = {}         # job -> list of (ts, progress) received for it
+        self.negts = set()     # jobs that received a progress report with a negative timestamp (outside the domain)
+        self.res = {}          # (job, ds) -> set of acceptable answers (hex or None)
+        self.shut = set()      # jobs whose shutdown notice was received
+        self.alive = True      # no shutdown request answered yet
+        self.in_domain = True
 
-    def check(self, o, out):
-        kind = o["op"]
-        if kind == "spawn":
-            j = out["spawned"]
-            if j is None:
+    def check_round(self, batch, outs, run, r):
+        """Returns (kind, signature-extras, text) of the first failure in this poll round, or None."""
+        alive0 = self.alive
+        open0 = {j for j in self.ids if j not in self.shut}
+        for i, (ev, out) in enumerate(zip(batch, outs)):
+            if not self.in_domain:
                 return None
-            if j in self.ids:
-                return ("id-reused", f"spawn returned id {j!r} already in use")
-            self.ids.append(j)
-            self.live[j] = True
-            self.reports[j] = []
-            return None
-        if kind == "report":
-            j = o["job"]
-            if j not in self.ids or not self.live[j]:
+            k = ev["k"]
+            if k in ("malformed", "garbage"):
+                self.in_domain = False        # not a request / not a report: outside the property
                 return None
-            if out["reported"] != "ok":
-                return ("report-crashed", f"report for live job {j} not handled: {out}")
-            if o["status"] == "Shutdown":
-                self.live[j] = False
-            elif o["status"] is not None:
-                self.reports[j].append((o["ts"], o["status"]))
-            for d, b in o["results"]:
-                self.results[(j, d)] = b
+            f = self._event(ev, out, run, (r, i), alive0 and self.alive, open0)
+            if f:
+                return f
+        return None
+
+    def _event(self, ev, out, run, tag, alive, open0):
+        k = ev["k"]
+        is_ctrl = k == "report"
+        must = alive and (not is_ctrl or (ev["owner"] in open0 and ev["owner"] not in self.shut))
+        served = isinstance(out, dict) and not ("died" in out)
+        if isinstance(out, dict) and "harness" in out:
+            return ("harness-error", {}, out["harness"])
+        if must and not served:
+            trig = _trigger(ev, self)
+            if isinstance(out, dict):
+                return ("gateway-died", {"trigger": trig, "exc": out["died"]},
+                        f"the gateway process ended with {out['died']}({out.get('msg')}) while handling {ev}: no job is served any more")
+            return ("not-served", {"trigger": trig, "how": out}, f"{ev} should have been handled by the running gateway but was {out}")
+        if not served:
             return None
-        if kind == "progress":
-            q = o["ids"] or list(self.ids)
-            if any(j not in self.ids for j in q):
-                if out["progress"] is not None:
-                    return ("unknown-job-no-error", f"progress query {q} naming an unknown job got {out}")
-                return None
-            if out["progress"] is None:
-                return ("known-job-error", f"progress query {q} failed")
-            got = dict(out["progress"])
-            for j in q:
-                rs = self.reports[j]
-                if not rs:
-                    ok = {"0.00"}
-                else:
-                    m = max(t for t, _ in rs)
-                    ok = {p for t, p in rs if t == m}
-                if got.get(j) not in ok:
-                    return ("stale-progress", f"job {j}: shown {got.get(j)!r}, reports with the greatest timestamp carry {sorted(ok)}")
+        if k == "submit":
+            return self._submit(ev, out, run, tag)
+        if k == "shutdown":
+            self.alive = False
+            if out.get("bye") is not True:
+                return ("bad-response", {"to": k}, f"shutdown request answered with {out}")
             return None
-        if kind == "result":
-            want = self.results.get((o["job"], o["ds"]))
-            if out["result"] != want:
-                return ("wrong-result", f"result for {(o['job'], o['ds'])}: got {out['result']!r}, uploaded {want!r}")
+        if k == "progress":
+            return self._progress(ev, out)
+        if k == "result":
+            return self._result(ev, out)
+        if k == "report":
+            return self._report(ev, out)
+        return None
+
+    def _submit(self, ev, out, run, tag):
+        if "spawned" not in out:
+            return ("bad-response", {"to": "submit"}, f"submit answered with {out}")
+        j = out["spawned"]
+        if j is None:
+            if ev.get("fail") is None:
+                err = out.get("error", "")
+                return ("spawn-failed", {"error": err.split("(")[0]},
+                        f"a well-formed submit (launch command accepted by the OS) was refused: {err}")
             return None
+        if out.get("error_and_id"):
+            return ("bad-response", {"to": "submit"}, "submit response carries both a job id and an error")
+        if j in self.ids:
+            return ("id-reused", {}, f"submit returned id {j!r} already handed out")
+        self.ids.append(j)
+        self.prog[j] = []
+        # the controller of the new job must be told this id and an address the gateway listens on for it
+        mine = [argv for t, argv in run.launches if t == tag]
+        if len(mine) != 1 or "--report_address" not in mine[0]:
+            return ("spawn-misaddressed", {}, f"submit answered with id {j!r} but launched {len(mine)} controller(s) with a report address")
+        val = mine[0][mine[0].index("--report_address") + 1]
+        bound = [s for s in run.bound_by.get(tag, []) if s in run.registered_by.get(tag, [])]
+        if val not in [f"{s.addr},{j}" for s in bound]:
+            return ("spawn-misaddressed", {}, f"job {j!r}: controller told to report to {val!r}; sockets bound and polled for it: {[s.addr for s in bound]}")
+        return None
+
+    def _progress(self, ev, out):
+        if "progress" not in out:
+            return ("bad-response", {"to": "progress"}, f"progress query answered with {out}")
+        q = ev["ids"]
+        if any(j not in self.ids for j in q):
+            if out["progress"] is not None:
+                return ("unknown-job-no-error", {}, f"progress query {q} naming an unknown job got {out}")
+            return None
+        if out["progress"] is None:
+            return ("known-job-error", {}, f"progress query {q} failed")
+        got = dict(out["progress"])
+        if not q:
+            extra = sorted(set(got) - set(self.ids))
+            if extra:
+                return ("phantom-job", {}, f"the gateway shows progress for {extra}: ids it never handed out (handed out: {self.ids})")
+            q = list(self.ids)
+        missing = [j for j in q if j not in got]
+        if missing:
+            return ("job-forgotten", {}, f"progress query: no entry for {missing}")
+        for j in q:
+            if j in self.negts:
+                continue
+            rs = self.prog[j]
+            if not rs:
+                ok = {"0.00"}
+            else:
+                m = max(t for t, _ in rs)
+                ok = {p for t, p in rs if t == m}
+            if got.get(j) not in ok:
+                return ("stale-progress", {}, f"job {j}: shown {got.get(j)!r}, reports with the greatest timestamp carry {sorted(ok)}")
+        return None
+
+    def _result(self, ev, out):
+        if "result" not in out:
+            return ("bad-response", {"to": "result"}, f"result query answered with {out}")
+        key = (ev["job"], ev["ds"])
+        want = self.res.get(key, {None})
+        if out["result"] not in want:
+            if want == {None}:
+                return ("unknown-dataset-no-error" if ev["job"] in self.ids else "unknown-job-no-error", {},
+                        f"result query for {key}: nothing was uploaded for it, got {_short(out['result'])}")
+            return ("wrong-result", {"size": _size_class(want)}, f"result for {key}: got {_short(out['result'])}, uploaded {sorted(_short(w) for w in want)}")
+        return None
+
+    def _report(self, ev, out):
+        j = ev["job"]
+        if j not in self.ids:
+            return None               # names no job of this gateway: ignored (it must only not stop the gateway)
+        second = ev["status"] == "Shutdown" and j in self.shut
+        if out.get("reported") != "ok" and not second:
+            return ("report-rejected", {}, f"report {_short_ev(ev)} for the known job {j} was rejected")
+        if ev["status"] == "Shutdown":
+            self.shut.add(j)
+        elif ev["status"] is not None:
+            self.prog[j].append((ev["ts"], ev["status"]))
+            if ev["ts"] < 0:
+                self.negts.add(j)
+        for d, b in ev["results"]:
+            if ev["status"] == "Shutdown":      # outside the domain: either outcome is accepted
+                self.res[(j, d)] = set(self.res.get((j, d), {None})) | {b}
+            else:
+                self.res[(j, d)] = {b}
+        return None
 
 
-def run_history(ops):
-    """Run on the real code; returns (outputs, first oracle failure or None)."""
-    real = Real()
+def _short(x):
+    if isinstance(x, str) and len(x) > 24:
+        return f"{x[:16]}…({len(x) // 2} bytes)"
+    return x
+
+
+def _short_ev(ev):
+    e = dict(ev)
+    if "results" in e:
+        e["results"] = [[d, _short(b)] for d, b in e["results"]]
+    return e
+
+
+def _size_class(want):
+    n = max((len(w) // 2 for w in want if w is not None), default=0)
+    return "empty" if n == 0 else ("small" if n <= 8 else "large")
+
+
+def run_history(batches, phase=None):
+    """Run on the real code; returns (outs per round, first oracle failure or None)."""
+    outs, run = run_real(batches)
+    if phase is not None:
+        phase.append(run.phase)
     orc = Oracle()
-    outs = []
-    fail = None
-    for i, o in enumerate(ops):
-        try:
-            out = real.op(o)
-        except Exception as e:  # the gateway stopped serving
-            out = {"crash": f"{type(e).__name__}: {e}"}
-            outs.append(out)
-            if fail is None:
-                fail = ("gateway-crash", f"op {i} {o} raised {out['crash']}", i)
-            break
-        outs.append(out)
-        f = orc.check(o, out)
-        if f and fail is None:
-            fail = (f[0], f[1], i)
-    return outs, fail
+    for r, (batch, row) in enumerate(zip(batches, outs)):
+        f = orc.check_round(batch, row, run, r)
+        if f:
+            return outs, (f[0], f[1], f[2], r)
+    return outs, None
 
 
-def shrink(ops, pred):
-    """Greedy delta-debugging on the op list (keeps op 0: the first spawn)."""
-    cur = list(ops)
+def shrink(batches, pred, budget=400):
+    """Greedy delta-debugging: drop whole rounds, then single events."""
+    cur = [list(b) for b in batches]
     changed = True
-    while changed:
+    while changed and budget > 0:
         changed = False
-        for i in range(len(cur) - 1, 0, -1):
+        for i in range(len(cur) - 1, -1, -1):
             cand = cur[:i] + cur[i + 1:]
-            if pred(cand):
+            budget -= 1
+            if cand and pred(cand):
                 cur = cand
                 changed = True
+        for i in range(len(cur) - 1, -1, -1):
+            if i >= len(cur) or len(cur[i]) < 2:
+                continue
+            for k in range(len(cur[i]) - 1, -1, -1):
+                cand = cur[:i] + [cur[i][:k] + cur[i][k + 1:]] + cur[i + 1:]
+                budget -= 1
+                if pred(cand):
+                    cur = cand
+                    changed = True
+                    break
     return cur
 
 
-def _model_outs(ctx, histories):
+# ----------------------------------------------------------------------------- model side
+
+def _lean_ev(ev):
+    e = dict(ev)
+    if e["k"] == "submit":
+        e["fail"] = e.get("fail") is not None
+    return e
+
+
+def _model_outs(histories):
     from ekw.core import lean_drive
     lines = []
-    for ops in histories:
+    for bs in histories:
         lines.append(json.dumps({"op": "reset"}))
-        lines += [json.dumps(o) for o in ops]
+        lines += [json.dumps({"op": "poll", "events": [_lean_ev(e) for e in b]}) for b in bs]
     res = lean_drive("C18", lines)
     outs = []
     k = 0
-    for ops in histories:
+    for bs in histories:
         k += 1
-        outs.append([json.loads(x) for x in res[k:k + len(ops)]])
-        k += len(ops)
+        outs.append([json.loads(x) for x in res[k:k + len(bs)]])
+        k += len(bs)
     return outs
 
 
 def _canon(o):
-    if isinstance(o, dict) and isinstance(o.get("progress"), list):
-        return {"progress": sorted({tuple(x) for x in o["progress"]})}
+    if isinstance(o, dict):
+        if isinstance(o.get("progress"), list):
+            return {"progress": sorted({tuple(x) for x in o["progress"]})}
+        if "died" in o:
+            return {"died": True}
+        if "spawned" in o:
+            return {"spawned": o["spawned"]}
     return o
 
 
+def legacy_to_batches(ops):
+    """Histories of the first version of this check (one handler call per op) as poll rounds of one event."""
+    out = []
+    for o in ops:
+        k = o["op"]
+        if k == "spawn":
+            out.append([{"k": "submit", "candidates": o["candidates"], "fail": None}])
+        elif k == "report":
+            out.append([{"k": "report", "owner": o["job"], "job": o["job"], "status": o["status"], "ts": o["ts"], "results": o["results"]}])
+        elif k == "progress":
+            out.append([{"k": "progress", "ids": o["ids"]}])
+        elif k == "result":
+            out.append([{"k": "result", "job": o["job"], "ds": o["ds"]}])
+    return out
+
+
+# witnesses that are replayed on every run (found by this check on the tree before the fix: commits; kept as regression inputs)
+WITNESSES = [
+    # a report naming a job this gateway never spawned (stale controller of an earlier gateway on a reused port)
+    [[{"k": "submit", "candidates": ["j0"], "fail": None}],
+     [{"k": "report", "owner": "j0", "job": "nope", "status": "50.00", "ts": 3, "results": []}],
+     [{"k": "progress", "ids": ["j0"]}]],
+    [[{"k": "submit", "candidates": ["j0"], "fail": None}],
+     [{"k": "report", "owner": "j0", "job": "nope", "status": None, "ts": 3, "results": [["t0|o0", "aa"]]}],
+     [{"k": "result", "job": "j0", "ds": "t0|o0"}]],
+    # a second shutdown notice for a job (arriving through another job's socket)
+    [[{"k": "submit", "candidates": ["j0"], "fail": None}], [{"k": "submit", "candidates": ["j1"], "fail": None}],
+     [{"k": "report", "owner": "j0", "job": "j0", "status": "Shutdown", "ts": 5, "results": []}],
+     [{"k": "report", "owner": "j1", "job": "j0", "status": "Shutdown", "ts": 6, "results": []}],
+     [{"k": "progress", "ids": []}]],
+    # a failed launch must not leave a tracked job behind
+    [[{"k": "submit", "candidates": ["j0"], "fail": None}], [{"k": "submit", "candidates": ["j1"], "fail": "oserror"}],
+     [{"k": "progress", "ids": []}], [{"k": "submit", "candidates": ["j1"], "fail": None}], [{"k": "progress", "ids": []}]],
+    # shutdown request in the middle of a poll round: the rest of the round is still handled, then the loop ends
+    [[{"k": "submit", "candidates": ["j0"], "fail": None}],
+     [{"k": "shutdown"}, {"k": "report", "owner": "j0", "job": "j0", "status": "10.00", "ts": 1, "results": []}],
+     [{"k": "progress", "ids": []}]],
+    # a socket closed earlier in the same round is still read in that round
+    [[{"k": "submit", "candidates": ["j0"], "fail": None}], [{"k": "submit", "candidates": ["j1"], "fail": None}],
+     [{"k": "report", "owner": "j1", "job": "j0", "status": "Shutdown", "ts": 5, "results": []},
+      {"k": "report", "owner": "j0", "job": "j0", "status": "70.00", "ts": 9, "results": [["a.b|c", ""]]}],
+     [{"k": "report", "owner": "j0", "job": "j0", "status": "80.00", "ts": 10, "results": []}],
+     [{"k": "progress", "ids": ["j0"]}, ], [{"k": "result", "job": "j0", "ds": "a.b|c"}], [{"k": "result", "job": "j0", "ds": "a|b.c"}]],
+]
+
+
+def _classify(batches):
+    flat = [e for b in batches for e in b]
+    reps = [e for e in flat if e["k"] == "report" and e["status"] not in (None, "Shutdown")]
+    ooo = any(a["job"] == b["job"] and a["ts"] > b["ts"] for i, a in enumerate(reps) for b in reps[i + 1:])
+    upl = any(e["k"] == "report" and e["results"] for e in flat)
+    foreign = any(e["k"] == "report" and e["owner"] != e["job"] for e in flat)
+    return flat, ooo, upl, foreign
+
+
 def correspond(ctx):
-    n = ctx.budget(300, 20000)
+    n = ctx.budget(500, 12000)
     maxops = ctx.budget(25, 80)
     hist = []
     import glob
     from ekw.core import CORPUS_DIR
     for f in sorted(glob.glob(str(CORPUS_DIR / "C18_*.json"))):
-        hist.append(json.load(open(f))["ops"])
+        c = json.load(open(f))
+        hist.append(c["batches"] if "batches" in c else legacy_to_batches(c["ops"]))
+    hist += [json.loads(json.dumps(w)) for w in WITNESSES]
     for _ in range(n):
-        hist.append(gen_history(ctx.rng, ctx.rng.randint(3, maxops)))
+        hist.append(gen_history(ctx.rng, ctx.rng.randint(3, maxops), ctx.count))
     real_outs = []
-    for ops in hist:
-        outs, fail = run_history(ops)
+    real_phase = []
+    seen_sig = set()
+    for batches in hist:
+        outs, fail = run_history(batches, real_phase)
         real_outs.append(outs)
-        reps = [o for o in ops if o["op"] == "report" and o["status"] not in (None, "Shutdown")]
-        ooo = any(a["job"] == b["job"] and a["ts"] > b["ts"] for i, a in enumerate(reps) for b in reps[i + 1:])
-        upl = any(o["op"] == "report" and o["results"] for o in ops)
-        ctx.case({"ops": ops[:12], "n_ops": len(ops)}, nontrivial=ooo or upl)
+        ctx.count("final_phase:" + real_phase[-1])
+        flat, ooo, upl, foreign = _classify(batches)
+        ctx.case({"batches": batches[:8], "n_rounds": len(batches), "n_events": len(flat)}, nontrivial=ooo or upl or foreign)
         ctx.count("histories")
-        ctx.count("ops", len(ops))
-        for o in ops:
-            ctx.count("op:" + o["op"])
+        ctx.count("events", len(flat))
+        for b in batches:
+            ctx.count("round_size:%d" % len(b))
+        for e in flat:
+            ctx.count("ev:" + e["k"])
         if ooo:
             ctx.count("histories_with_out_of_order_reports")
-        for o in outs:
-            if o.get("progress", 1) is None or o.get("result", 1) is None:
-                ctx.count("error_responses")
+        for row in outs:
+            for o in row:
+                if isinstance(o, str):
+                    ctx.count("out:" + o)
+                elif "died" in o:
+                    ctx.count("out:died")
+                elif o.get("reported") == "error":
+                    ctx.count("out:report-error-logged")
+                elif o.get("progress", 1) is None or o.get("result", 1) is None or ("spawned" in o and o["spawned"] is None):
+                    ctx.count("out:error-response")
         if fail:
-            small = shrink(ops, lambda c: (run_history(c)[1] or ("",))[0] == fail[0])
+            sig = dict(fail[1])
+            sig["kind"] = fail[0]
+            key = json.dumps(sig, sort_keys=True)
+            if key in seen_sig and len(seen_sig) < 50:
+                ctx.violation(sig, {"batches": batches}, fail[2])      # same signature: reported once by core, unshrunk is fine
+                continue
+            seen_sig.add(key)
+
+            def same(c, sig=sig):
+                f = run_history(c)[1]
+                return f is not None and dict(f[1], kind=f[0]) == sig
+            small = shrink(batches, same)
             f2 = run_history(small)[1]
-            ctx.violation({"kind": fail[0]}, {"ops": small}, f2[1] if f2 else fail[1])
-    model_outs = _model_outs(ctx, hist)
-    for ops, ro, mo in zip(hist, real_outs, model_outs):
+            ctx.violation(sig, {"batches": small}, f2[2] if f2 else fail[2])
+    model_outs = _model_outs(hist)
+    for batches, ro, ph, mo in zip(hist, real_outs, real_phase, model_outs):
         ctx.traces += 1
         for i, (a, b) in enumerate(zip(ro, mo)):
-            if _canon(a) != _canon(b):
-                ctx.disagree("gateway-op", {"ops": ops[:i + 1]}, b, a)
+            ca = [_canon(x) for x in a]
+            cb = [_canon(x) for x in b.get("outs", [])] if isinstance(b, dict) else b
+            if ca != cb:
+                ctx.disagree("gateway-poll-round", {"batches": batches[:i + 1]}, b, a)
                 break
+        else:
+            if mo and isinstance(mo[-1], dict) and mo[-1].get("phase") != ph:
+                ctx.disagree("gateway-final-phase", {"batches": batches}, mo[-1].get("phase"), ph)
 
 
 def replay(payload):
-    ops = payload["case"]["ops"]
-    outs, fail = run_history(ops)
-    for o, out in zip(ops, outs):
-        print(o, "->", out)
+    case = payload["case"]
+    batches = case["batches"] if "batches" in case else legacy_to_batches(case["ops"])
+    outs, fail = run_history(batches)
+    for b, row in zip(batches, outs):
+        print("poll round:")
+        for e, o in zip(b, row):
+            print("   ", _short_ev(e), "->", {k: _short(v) for k, v in o.items()} if isinstance(o, dict) else o)
     print("oracle:", fail)
     return 1 if fail else 0
